@@ -190,6 +190,43 @@ pub fn c16_get_vs_push1_linearizable() {
     teardown(l);
 }
 
+/// `len()` vs one push by the other thread: the answer is the length before or after the push according to
+/// the order of the critical sections.
+#[cfg_attr(kani, kani::proof)]
+#[cfg_attr(kani, kani::unwind(8))]
+#[cfg_attr(kani, kani::stub(std::sync::Mutex::lock, crate::stubs::mutex_lock_stub))]
+pub fn c16_len_vs_push1_linearizable() {
+    let (l, _m) = setup(other_push1, 2);
+    let n = l.len();
+    let at = done();
+    assert!(n == if at != 0 { 3 } else { 2 }, "len is not the length at its linearisation point");
+    assert!(l.len() == if at != 0 { 3 } else { 2 }, "a push was lost or duplicated");
+    cover!(at == 26, "preempted_before_len_lock");
+    cover!(at == 0, "not_preempted");
+    teardown(l);
+}
+
+/// `push(v)` vs one push by the other thread (no reallocation: 2 + 2 <= 4): both elements present, own element at
+/// the position given by the order of the critical sections.
+#[cfg_attr(kani, kani::proof)]
+#[cfg_attr(kani, kani::unwind(8))]
+#[cfg_attr(kani, kani::stub(std::sync::Mutex::lock, crate::stubs::mutex_lock_stub))]
+pub fn c16_push_vs_push1_linearizable() {
+    let (l, m) = setup(other_push1, 2);
+    let v: u64 = any();
+    l.push(v);
+    let at = done();
+    if at != 0 {
+        assert!(l.len() == 4, "a push was lost");
+        assert!(l.get(2) == Some(PUSHED[0]) && l.get(3) == Some(v), "pushes not in the order of their critical sections");
+    } else {
+        assert!(l.len() == 3 && l.get(2) == Some(v));
+    }
+    assert!(l.get(0) == Some(m[0]) && l.get(1) == Some(m[1]));
+    cover!(at == 17, "preempted_before_push_lock");
+    teardown(l);
+}
+
 /// `len` / `push` on this thread vs 4 pushes on the other: nothing lost.
 #[cfg_attr(kani, kani::proof)]
 #[cfg_attr(kani, kani::unwind(8))]
@@ -321,6 +358,8 @@ big_get_vs_push!(c16_big_get_vs_push_realloc, 1, false);
 big_get_vs_push!(c16_big_ffi_get_vs_push_realloc, 11, true);
 
 crate::list![
+    c16_len_vs_push1_linearizable,
+    c16_push_vs_push1_linearizable,
     c16_big_get_vs_push_realloc,
     c16_big_ffi_get_vs_push_realloc,
     c16_get_vs_push4_realloc_site1,
